@@ -1,11 +1,30 @@
 /-
   C12 — Every HTTP response is classified into exactly one documented outcome.
 
-  Statements only (plus their proofs, which are short); the model is Model/GetData.lean.
-  Quantification: every status code (`Nat`), every body (`Option J`, `none` = not JSON),
-  no bound on the size of the body or of the error list.
+  Models: Model/GetData.lean (`get_data`, `from_errors_dicts`, `from_dict`, the exception objects
+  and their `str()`), Model/RawResponse.lean (`get_data` on status + raw body BYTES, over the JSON
+  decoding reference Spec/PyJson.lean), Model/MethodTail.lean (the tail of the generated client
+  method and of the generated subscription method over the names `get_variable_names` chose).
+
+  Sections
+    1. `get_data` on a decoded body (status : Nat, body : Option J, `none` = `response.json()` raised
+       `ValueError`), under the property's hypothesis `SpecShaped`: the four iff's, `exactly_one_outcome`.
+    2. outside the hypothesis: exactly which shapes of `errors` escape as which exception
+       (`internal_iff`), and that nothing escapes inside it.
+    3. the decoding glue, on raw bytes: `C12_full` (false: `RecursionError` for deep nesting,
+       finding C12-F1, trigger `decodeEscapes`), `C12_partial` outside the trigger, which byte
+       bodies are "not JSON" (`raw_invalid_iff`, non-UTF-8, the integer digit limit).
+    4. the exception objects: attributes carried, `str()`.
+    5. the generated method: its outcome is `get_data`'s outcome, then validation of exactly the
+       data `get_data` returned — for every parameter list (every renaming of the locals), every
+       `get_data`, every validator, every scope.
+  Quantification: every status code, every body (bytes or decoded), every recursion/digit limit of
+  the interpreter, no bound on the size of the body, of the error list or of the parameter list.
 -/
 import AriadneModel.Model.GetData
+import AriadneModel.Model.RawResponse
+import AriadneModel.Model.MethodTail
+import AriadneModel.Proofs.C12Decode
 
 set_option linter.unusedSimpArgs false
 set_option linter.unusedVariables false
@@ -261,6 +280,523 @@ theorem exactly_one_outcome (r : HttpResp) (hs : SpecShaped r) :
   | multi gs d => right; right; left; simp
   | data d => right; right; right; simp
   | internal x => exact absurd hg (key x)
+
+/-! ## 2. Outside the hypothesis: which shapes escape as which exception
+
+    The property excludes responses whose `errors` member is not a list of objects carrying a
+    message.  What the code does there is still part of the model; these theorems make the
+    excluded region exact. -/
+
+/-- the exception `from_dict(entry)` dies with (`none`: the entry is spec-shaped):
+    `entry["message"]` on a dict without the key is a `KeyError`, on anything that is not a dict
+    (None, bool, number, str, list) a `TypeError` -/
+def entryExc : J → Option String
+  | .obj kvs => if (J.lookup "message" kvs).isSome then none else some "KeyError"
+  | _ => some "TypeError"
+
+/-- the list comprehension stops at the first entry `from_dict` cannot build -/
+def firstBad : List J → Option String
+  | [] => none
+  | e :: es =>
+    match entryExc e with
+    | some x => some x
+    | none => firstBad es
+
+theorem entryExc_none_iff (e : J) : entryExc e = none ↔ ErrShaped e := by
+  cases e <;> simp [entryExc, ErrShaped, Option.isSome_iff_ne_none]
+
+theorem firstBad_none_iff (es : List J) : firstBad es = none ↔ ∀ x ∈ es, ErrShaped x := by
+  induction es with
+  | nil => simp [firstBad]
+  | cons e es ih =>
+    cases h : entryExc e with
+    | none => simp [firstBad, h, ih, (entryExc_none_iff e).mp h]
+    | some x =>
+      have : ¬ ErrShaped e := fun hs => by rw [(entryExc_none_iff e).mpr hs] at h; cases h
+      simp [firstBad, h, this]
+
+theorem fromDict_entryExc (e : J) :
+    (∃ g, fromDict e = .ok g ∧ entryExc e = none) ∨ (∃ x, fromDict e = .error x ∧ entryExc e = some x) := by
+  cases e
+  case obj kvs => rcases h : J.lookup "message" kvs with _ | m <;> simp [fromDict, entryExc, h]
+  all_goals simp [fromDict, entryExc]
+
+theorem fromDicts_error_iff (es : List J) (x : String) : fromDicts es = .error x ↔ firstBad es = some x := by
+  induction es with
+  | nil => simp [fromDicts, firstBad]
+  | cons e es ih =>
+    rcases fromDict_entryExc e with ⟨g, hg, hn⟩ | ⟨y, hy, hs⟩
+    · cases hrest : fromDicts es with
+      | error z => simp [fromDicts, hg, firstBad, hn, hrest] at ih ⊢; exact ih
+      | ok gs => simp [fromDicts, hg, firstBad, hn, hrest] at ih ⊢; exact ih
+    · simp [fromDicts, hy, firstBad, hs]
+
+/-- how a value of the `errors` member makes `from_errors_dicts` die: a list with a first
+    non-shaped entry (that entry's exception), or any truthy non-list (`TypeError`: a str/dict
+    iterates into strings, which `["message"]` cannot index; numbers/True are not iterable) -/
+def EscapesAs (e : J) (x : String) : Prop :=
+  (∃ es, e = .arr es ∧ firstBad es = some x) ∨ (e.isArr = false ∧ e.truthy = true ∧ x = "TypeError")
+
+theorem EscapesAs.truthy {e : J} {x : String} (h : EscapesAs e x) : e.truthy = true := by
+  rcases h with ⟨es, rfl, hb⟩ | ⟨_, ht, _⟩
+  · cases es with
+    | nil => simp [firstBad] at hb
+    | cons a as => simp [J.truthy]
+  · exact ht
+
+theorem fromErrorsDicts_internal_iff (e d : J) (x : String) (ht : e.truthy = true) :
+    fromErrorsDicts e d = .internal x ↔ EscapesAs e x := by
+  cases e
+  case arr es =>
+    have hiff := fromDicts_error_iff es x
+    cases hf : fromDicts es with
+    | ok gs =>
+      have : ¬ firstBad es = some x := fun h => by rw [hf] at hiff; simp at hiff; exact hiff h
+      simp [fromErrorsDicts, hf, EscapesAs, J.isArr, this]
+    | error y =>
+      rw [hf] at hiff
+      simp only [Except.error.injEq] at hiff
+      simp [fromErrorsDicts, hf, EscapesAs, J.isArr, hiff]
+  all_goals (simp [fromErrorsDicts, EscapesAs, J.isArr] at ht ⊢ <;> first | exact eq_comm | (simp [ht]; exact eq_comm) | skip)
+
+/-- (outside the claim, exact) an undocumented exception escapes `get_data` if and only if the
+    status is 2xx, the body is an object whose `errors` member is a truthy non-list or a list with
+    a non-shaped entry — and then it is exactly that entry's `KeyError`/`TypeError` -/
+theorem internal_iff (r : HttpResp) (x : String) :
+    getData r = .internal x ↔
+      ((200 ≤ r.status ∧ r.status ≤ 299) ∧
+        ∃ kvs e, r.body = some (.obj kvs) ∧ J.lookup "errors" kvs = some e ∧ EscapesAs e x) := by
+  unfold getData isSuccess
+  by_cases h : (200 ≤ r.status ∧ r.status ≤ 299)
+  · have : (decide (200 ≤ r.status) && decide (r.status ≤ 299)) = true := by simp [h]
+    simp only [this, Bool.not_true, Bool.false_eq_true, ↓reduceIte, h, true_and]
+    rcases hb : r.body with _ | b
+    · simp
+    · cases b <;> simp
+      rename_i kvs
+      rcases he : J.lookup "errors" kvs with _ | e
+      · simp [J.getD, J.hasKey, he, J.truthy]
+        split <;> simp
+      · simp only [J.hasKey, he, Option.isSome_some, Bool.not_true, Bool.and_false,
+          Bool.false_eq_true, ↓reduceIte, J.getD, Option.getD_some]
+        by_cases ht : e.truthy = true
+        · simp [ht, fromErrorsDicts_internal_iff e _ x ht]
+        · have hne : ¬ EscapesAs e x := fun hh => ht hh.truthy
+          simp [ht, hne]
+  · have : (decide (200 ≤ r.status) && decide (r.status ≤ 299)) = false := by
+      simp only [Bool.and_eq_false_iff, decide_eq_false_iff_not]; omega
+    simp [this, h]
+
+theorem firstBad_names (es : List J) (x : String) (h : firstBad es = some x) : x = "KeyError" ∨ x = "TypeError" := by
+  induction es with
+  | nil => simp [firstBad] at h
+  | cons e es ih =>
+    cases he : entryExc e with
+    | none => simp [firstBad, he] at h; exact ih h
+    | some y =>
+      simp [firstBad, he] at h
+      subst h
+      cases e <;> simp [entryExc] at he
+      case obj kvs => exact Or.inl he.2.symm
+      all_goals exact Or.inr he.symm
+
+/-- the only exceptions that ever escape the decoded-body stage are `KeyError` and `TypeError` -/
+theorem internal_exception_names (r : HttpResp) (x : String) (h : getData r = .internal x) :
+    x = "KeyError" ∨ x = "TypeError" := by
+  obtain ⟨-, kvs, e, -, -, hesc⟩ := (internal_iff r x).mp h
+  rcases hesc with ⟨es, -, hb⟩ | ⟨-, -, hx⟩
+  · exact firstBad_names es x hb
+  · exact Or.inr hx
+
+/-- nothing of that escapes inside the property's hypothesis -/
+theorem escape_only_outside_claim (r : HttpResp) (x : String) (h : getData r = .internal x) : ¬ SpecShaped r := by
+  intro hs
+  have := exactly_one_outcome r hs
+  simp [h, IsHttp, IsInvalid, IsMulti, IsData] at this
+
+/-- non-shaped but falsy `errors` (`null`, `false`, `0`, `""`, `{}`) raise nothing: data is returned -/
+theorem falsy_errors_return_data (r : HttpResp) (kvs : List (String × J)) (e : J)
+    (h2 : 200 ≤ r.status ∧ r.status ≤ 299) (hb : r.body = some (.obj kvs))
+    (he : J.lookup "errors" kvs = some e) (hf : e.truthy = false) : getData r = .data (J.getD "data" kvs) := by
+  have : (decide (200 ≤ r.status) && decide (r.status ≤ 299)) = true := by simp [h2]
+  simp [getData, isSuccess, this, hb, J.hasKey, he, J.getD, hf]
+
+/-! ## 3. The decoding glue: `get_data` on raw bytes -/
+
+open Ariadne.RawResponse
+
+/-- the decoded view of a raw response (`none` when `json()` did not return) -/
+def respOf (cfg : PyJson.Cfg) (r : Raw) : HttpResp := ⟨r.status, (jsonCall cfg r).body⟩
+
+/-- finding C12-F1, trigger: the status is 2xx (so `json()` is called) and `json()` raises something
+    that is not a `ValueError` -/
+def decodeEscapes (cfg : PyJson.Cfg) (r : Raw) : Bool :=
+  isSuccess r.status &&
+    (match PyJson.loads cfg r.content with
+     | .raises _ => true
+     | _ => false)
+
+def Supported_12 (cfg : PyJson.Cfg) (r : Raw) : Prop := ¬ (decodeEscapes cfg r = true)
+
+/-- one of the four documented outcomes (no other exception) -/
+def Documented (o : Outcome) : Prop := IsHttp o ∨ IsInvalid o ∨ IsMulti o ∨ IsData o
+
+/-- exactly one of them -/
+def ExactlyOne (o : Outcome) : Prop :=
+  (IsHttp o ∧ ¬ IsInvalid o ∧ ¬ IsMulti o ∧ ¬ IsData o) ∨
+  (¬ IsHttp o ∧ IsInvalid o ∧ ¬ IsMulti o ∧ ¬ IsData o) ∨
+  (¬ IsHttp o ∧ ¬ IsInvalid o ∧ IsMulti o ∧ ¬ IsData o) ∨
+  (¬ IsHttp o ∧ ¬ IsInvalid o ∧ ¬ IsMulti o ∧ IsData o)
+
+/-- The property at full strength on raw responses: for every interpreter limit, status and body
+    bytes whose decoded `errors` member (when present) is spec-shaped, the outcome is documented. -/
+def C12_full : Prop :=
+  ∀ (cfg : PyJson.Cfg) (r : Raw), SpecShaped (respOf cfg r) → Documented (getDataRaw cfg r)
+
+/-- outside the trigger the raw `get_data` IS the decoded-body `get_data` of section 1 -/
+theorem raw_eq_getData (cfg : PyJson.Cfg) (r : Raw) (h : Supported_12 cfg r) :
+    getDataRaw cfg r = getData (respOf cfg r) := by
+  unfold Supported_12 decodeEscapes at h
+  unfold getDataRaw getDataCall respOf jsonCall
+  cases hl : PyJson.loads cfg r.content with
+  | value j => by_cases hs : isSuccess r.status = true <;> simp [hs, getData, JsonCall.body]
+  | valueError => by_cases hs : isSuccess r.status = true <;> simp [hs, getData, JsonCall.body]
+  | raises x =>
+    have hs : isSuccess r.status = false := by
+      cases hh : isSuccess r.status with
+      | false => rfl
+      | true => simp [hl, hh] at h
+    simp [hs, getData, JsonCall.body]
+
+/-- inside the trigger the decoder's exception escapes, and it is `RecursionError` -/
+theorem raw_escape (cfg : PyJson.Cfg) (r : Raw) (h : decodeEscapes cfg r = true) :
+    getDataRaw cfg r = .internal PyJson.recursionError := by
+  unfold decodeEscapes at h
+  unfold getDataRaw getDataCall jsonCall
+  cases hl : PyJson.loads cfg r.content with
+  | value j => simp [hl] at h
+  | valueError => simp [hl] at h
+  | raises x =>
+    have hx := PyJson.loads_raises cfg _ x hl
+    subst hx
+    cases hh : isSuccess r.status with
+    | false => simp [hl, hh] at h
+    | true => simp [hh]
+
+/-- a body of `depthLimit + 1` opening brackets, under any 2xx status: `RecursionError` escapes -/
+theorem deep_body_escapes (cfg : PyJson.Cfg) (status : Nat) (h2 : 200 ≤ status ∧ status ≤ 299) :
+    getDataRaw cfg ⟨status, List.replicate (cfg.depthLimit + 1) 91⟩ = .internal "RecursionError" := by
+  have hs : isSuccess status = true := by simp [isSuccess, h2]
+  have := raw_escape cfg ⟨status, List.replicate (cfg.depthLimit + 1) 91⟩
+    (by simp [decodeEscapes, hs]; rw [show (91 : Nat) = PyJson.lbr from rfl, PyJson.loads_deep])
+  simpa [PyJson.recursionError] using this
+
+theorem C12_full_false : ¬ C12_full := by
+  intro hfull
+  let cfg : PyJson.Cfg := ⟨1000, 4300⟩
+  let r : Raw := ⟨200, List.replicate (cfg.depthLimit + 1) 91⟩
+  have hl : PyJson.loads cfg r.content = .raises PyJson.recursionError := by
+    show PyJson.loads cfg (List.replicate (cfg.depthLimit + 1) PyJson.lbr) = _
+    exact PyJson.loads_deep cfg
+  have hshape : SpecShaped (respOf cfg r) := by
+    intro kvs e hb
+    simp [respOf, jsonCall, hl, JsonCall.body] at hb
+  have hesc := deep_body_escapes cfg 200 (by omega)
+  have := hfull cfg r hshape
+  simp [r, hesc, Documented, IsHttp, IsInvalid, IsMulti, IsData] at this
+
+/-- The property outside the finding's trigger: exactly one documented outcome. -/
+theorem C12_partial (cfg : PyJson.Cfg) (r : Raw) (hs : SpecShaped (respOf cfg r)) (hsup : Supported_12 cfg r) :
+    ExactlyOne (getDataRaw cfg r) := by
+  rw [raw_eq_getData cfg r hsup]
+  exact exactly_one_outcome (respOf cfg r) hs
+
+/-- theorem region ∪ trigger region = everything, and the trigger region is exactly the escape -/
+theorem raw_outcome_cases (cfg : PyJson.Cfg) (r : Raw) :
+    (decodeEscapes cfg r = true ∧ getDataRaw cfg r = .internal PyJson.recursionError) ∨
+    (Supported_12 cfg r ∧ getDataRaw cfg r = getData (respOf cfg r)) := by
+  by_cases h : decodeEscapes cfg r = true
+  · exact Or.inl ⟨h, raw_escape cfg r h⟩
+  · exact Or.inr ⟨h, raw_eq_getData cfg r h⟩
+
+/-- the HTTP error needs no hypothesis at all: `json()` is not even called for a non-2xx status -/
+theorem raw_http_iff (cfg : PyJson.Cfg) (r : Raw) (s : Nat) :
+    getDataRaw cfg r = .http s ↔ (¬ (200 ≤ r.status ∧ r.status ≤ 299) ∧ s = r.status) := by
+  rcases raw_outcome_cases cfg r with ⟨htr, hesc⟩ | ⟨hsup, heq⟩
+  · have h2 : 200 ≤ r.status ∧ r.status ≤ 299 := by
+      simp [decodeEscapes, isSuccess] at htr; exact htr.1
+    simp [hesc, h2]
+  · rw [heq]; exact http_error_iff (respOf cfg r) s
+
+/-- which byte bodies are "not JSON" for `get_data`: the invalid-response error is raised exactly
+    for a 2xx status when `json.loads` raises a `ValueError`, or returns something that is not an
+    object carrying `data` or `errors` -/
+theorem raw_invalid_iff (cfg : PyJson.Cfg) (r : Raw) :
+    getDataRaw cfg r = .invalid ↔
+      ((200 ≤ r.status ∧ r.status ≤ 299) ∧
+        (PyJson.loads cfg r.content = .valueError ∨
+          ∃ j, PyJson.loads cfg r.content = .value j ∧ BodyInvalid (some j))) := by
+  rcases raw_outcome_cases cfg r with ⟨htr, hesc⟩ | ⟨hsup, heq⟩
+  · simp only [decodeEscapes, Bool.and_eq_true] at htr
+    cases hl : PyJson.loads cfg r.content with
+    | raises x => simp [hesc]
+    | value j => simp [hl] at htr
+    | valueError => simp [hl] at htr
+  · rw [heq, invalid_iff]
+    cases hl : PyJson.loads cfg r.content with
+    | value j => simp [respOf, jsonCall, hl, JsonCall.body, BodyInvalid]
+    | valueError => simp [respOf, jsonCall, hl, JsonCall.body, BodyInvalid]
+    | raises x =>
+      have hno : ¬ (200 ≤ r.status ∧ r.status ≤ 299) := by
+        intro h2; apply hsup; simp [decodeEscapes, isSuccess, h2, hl]
+      simp [respOf, jsonCall, hl, JsonCall.body, BodyInvalid, hno]
+
+/-- a body that is not valid UTF-8/16/32 is "not JSON" (`UnicodeDecodeError` is a `ValueError`) -/
+theorem undecodable_body_is_invalid (cfg : PyJson.Cfg) (r : Raw) (h2 : 200 ≤ r.status ∧ r.status ≤ 299)
+    (hd : PyJson.decodeBytes r.content = none) : getDataRaw cfg r = .invalid :=
+  (raw_invalid_iff cfg r).mpr ⟨h2, Or.inl (PyJson.loads_undecodable cfg _ hd)⟩
+
+/-- an integer literal over the interpreter's digit limit is "not JSON", for every limit -/
+theorem long_int_body_is_invalid (cfg : PyJson.Cfg) (status n : Nat) (h2 : 200 ≤ status ∧ status ≤ 299)
+    (h0 : cfg.intMaxDigits ≠ 0) (hn : cfg.intMaxDigits < n) :
+    getDataRaw cfg ⟨status, List.replicate n 49⟩ = .invalid :=
+  (raw_invalid_iff cfg ⟨status, List.replicate n 49⟩).mpr
+    ⟨h2, Or.inl (by show PyJson.loads cfg (List.replicate n PyJson.one) = _; exact PyJson.loads_long_int cfg n h0 hn)⟩
+
+/-- the only undocumented exceptions that can ever leave `get_data`, over all bytes -/
+theorem raw_escape_names (cfg : PyJson.Cfg) (r : Raw) (x : String) (h : getDataRaw cfg r = .internal x) :
+    x = "RecursionError" ∨ x = "KeyError" ∨ x = "TypeError" := by
+  rcases raw_outcome_cases cfg r with ⟨_, hesc⟩ | ⟨_, heq⟩
+  · rw [hesc] at h; simp [PyJson.recursionError] at h; exact Or.inl h.symm
+  · rw [heq] at h; exact Or.inr (internal_exception_names _ x h)
+
+/-- duplicate keys: the decoder keeps the LAST value (so `{"errors": [...], "errors": []}` reports no error) -/
+theorem duplicate_key_last_wins (k : String) (v : J) (kvs : List (String × J)) :
+    J.lookup k (PyJson.insertKv k v kvs) = some v ∧
+      ∀ k2, k2 ≠ k → J.lookup k2 (PyJson.insertKv k v kvs) = J.lookup k2 kvs :=
+  ⟨PyJson.lookup_insertKv_same k v kvs, fun k2 h => PyJson.lookup_insertKv_other k k2 v kvs h⟩
+
+/-! ## 4. The exception objects: what they carry, what `str()` says -/
+
+theorem http_error_carries (cfg : PyJson.Cfg) (r : Raw) (s : Nat) (h : getDataRaw cfg r = .http s) :
+    excOf r (getDataRaw cfg r) = some (.http r.status r) ∧
+      (Exc.http r.status r).str = .ok ("HTTP status code: " ++ toString r.status) := by
+  have := (raw_http_iff cfg r s).mp h
+  rw [h]
+  simp [excOf, this.2, Exc.str, httpPrefix]
+
+theorem invalid_error_carries (cfg : PyJson.Cfg) (r : Raw) (h : getDataRaw cfg r = .invalid) :
+    excOf r (getDataRaw cfg r) = some (.invalid r) ∧ (Exc.invalid r).str = .ok "Invalid response format." := by
+  rw [h]; simp [excOf, Exc.str, invalidText]
+
+theorem strAll_ok_iff (es : List GqlErr) (ss : List String) :
+    strAll es = .ok ss ↔ es.map (·.message) = ss.map J.str := by
+  induction es generalizing ss with
+  | nil => cases ss <;> simp [strAll]
+  | cons g gs ih =>
+    cases hm : g.message with
+    | str m =>
+      cases hr : strAll gs with
+      | error x =>
+        have := ih
+        cases ss with
+        | nil => simp [strAll, GqlErr.str, hm, hr]
+        | cons t ts =>
+          have h' := (ih ts)
+          rw [hr] at h'
+          simp at h'
+          simp [strAll, GqlErr.str, hm, hr]
+          intro _; exact h'
+      | ok rs =>
+        cases ss with
+        | nil => simp [strAll, GqlErr.str, hm, hr]
+        | cons t ts =>
+          have h' := (ih ts)
+          rw [hr] at h'
+          simp at h'
+          simp [strAll, GqlErr.str, hm, hr, h']
+    | null => cases ss <;> simp [strAll, GqlErr.str, hm]
+    | bool _ => cases ss <;> simp [strAll, GqlErr.str, hm]
+    | num _ _ => cases ss <;> simp [strAll, GqlErr.str, hm]
+    | arr _ => cases ss <;> simp [strAll, GqlErr.str, hm]
+    | obj _ => cases ss <;> simp [strAll, GqlErr.str, hm]
+
+theorem strAll_error (es : List GqlErr) (x : String) (h : strAll es = .error x) : x = "TypeError" := by
+  induction es with
+  | nil => simp [strAll] at h
+  | cons g gs ih =>
+    cases hm : g.message <;> simp [strAll, GqlErr.str, hm] at h
+    case str m =>
+      cases hr : strAll gs with
+      | error y => simp [hr] at h; subst h; exact ih hr
+      | ok rs => simp [hr] at h
+    all_goals exact h.symm
+
+/-- `str()` of the multi-error is the `"; "`-joined messages — exactly when every message IS a
+    string; otherwise `str()` itself raises `TypeError` (`__str__ returned non-string`) -/
+theorem multi_str {R : Type} (es : List GqlErr) (d : J) :
+    (∀ s, (Exc.multi (R := R) es d).str = .ok s ↔
+        ∃ ss, es.map (·.message) = ss.map J.str ∧ s = "; ".intercalate ss) ∧
+    (∀ x, (Exc.multi (R := R) es d).str = .error x → x = "TypeError") := by
+  constructor
+  · intro s
+    cases hr : strAll es with
+    | ok rs =>
+      have h1 := (strAll_ok_iff es rs).mp hr
+      simp only [Exc.str, hr, multiSep, Except.ok.injEq]
+      constructor
+      · intro h; exact ⟨rs, h1, h.symm⟩
+      · rintro ⟨ss, hss, rfl⟩
+        have := (strAll_ok_iff es ss).mpr hss
+        rw [hr] at this
+        cases this; rfl
+    | error x =>
+      simp only [Exc.str, hr]
+      constructor
+      · intro h; cases h
+      · rintro ⟨ss, hss, -⟩
+        have := (strAll_ok_iff es ss).mpr hss
+        rw [hr] at this; cases this
+  · intro x h
+    cases hr : strAll es with
+    | ok rs => simp [Exc.str, hr] at h
+    | error y => simp [Exc.str, hr] at h; subst h; exact strAll_error es _ hr
+
+/-! ## 5. The generated method -/
+
+open Ariadne.MethodTail
+
+theorem lookup_assign_same {R : Type} (n : String) (v : Val R) (env : Env R) :
+    MethodTail.lookup n (assign n v env) = some v := by
+  induction env with
+  | nil => simp [assign, MethodTail.lookup]
+  | cons p rest ih =>
+    obtain ⟨k, w⟩ := p
+    by_cases h : k = n
+    · simp [assign, MethodTail.lookup, h]
+    · simp [assign, MethodTail.lookup, h, ih]
+
+/-- any body whose `get_data` argument is the response target and whose `model_validate` argument
+    is the data target does what the property demands, in every scope -/
+theorem run_of_names {R V : Type} (b : Body) (h1 : b.getDataArg = b.respTarget) (h2 : b.validateArg = b.dataTarget)
+    (gd : R → Outcome) (validate : J → Option V) (env0 : Env R) (r : R) :
+    run b gd validate env0 r = expected gd validate r := by
+  unfold run expected
+  simp only [h1, h2, lookup_assign_same]
+
+/-- THE GENERATED METHOD, for every parameter list (so for every renaming `get_variable_names`
+    performs: `query/_query`, `variables/_variables`, `response/_response`, `data/_data`), every
+    `get_data`, every validator, every response and every scope: its outcome is `get_data`'s outcome,
+    then validation of exactly the data `get_data` returned. -/
+theorem method_outcome {R V : Type} (params : List String) (gd : R → Outcome) (validate : J → Option V)
+    (env0 : Env R) (r : R) :
+    run (emit params) gd validate env0 r = expected gd validate r :=
+  run_of_names (emit params) rfl rfl gd validate env0 r
+
+/-- the three clauses of the property's last sentence, spelled out -/
+theorem method_clauses {R V : Type} (params : List String) (gd : R → Outcome) (validate : J → Option V)
+    (env0 : Env R) (r : R) :
+    (∀ o, gd r = o → (∀ d, o ≠ .data d) → run (emit params) gd validate env0 r = .raised o) ∧
+    (∀ d, gd r = .data d → validate d = none → run (emit params) gd validate env0 r = .validationError) ∧
+    (∀ d v, gd r = .data d → validate d = some v → run (emit params) gd validate env0 r = .returned v) := by
+  rw [method_outcome]
+  refine ⟨?_, ?_, ?_⟩
+  · intro o ho hne
+    unfold expected
+    rw [ho]
+    cases o with
+    | data d => exact absurd rfl (hne d)
+    | _ => simp
+  · intro d hd hv; simp [expected, hd, hv]
+  · intro d v hd hv; simp [expected, hd, hv]
+
+/-- instantiated with the raw `get_data`: what a generated method makes of status + body bytes -/
+theorem generated_method_on_bytes {V : Type} (cfg : PyJson.Cfg) (params : List String) (validate : J → Option V) (r : Raw) :
+    run (emit params) (getDataRaw cfg) validate (initEnv params) r = expected (getDataRaw cfg) validate r :=
+  method_outcome params (getDataRaw cfg) validate (initEnv params) r
+
+theorem loop_of_names {R V : Type} (b : SubBody) (h : b.yieldArg = b.loopTarget) (validate : J → Option V)
+    (fin : StreamEnd) (items : List J) : ∀ env : Env R, loop b validate fin env items = expectedSub validate fin items := by
+  induction items with
+  | nil => intro env; simp [loop, expectedSub]
+  | cons d ds ih =>
+    intro env
+    simp only [loop, expectedSub, h, lookup_assign_same]
+    cases validate d with
+    | none => rfl
+    | some v => simp only [ih]
+
+/-- the generated subscription method yields the validated model of every item, in order, up to
+    the first item the model class rejects, and ends as the stream ends — for every parameter list -/
+theorem subscription_method_outcome {R V : Type} (params : List String) (validate : J → Option V)
+    (env0 : Env R) (items : List J) (fin : StreamEnd) :
+    runSub (emitSub params) validate env0 items fin = expectedSub validate fin items := by
+  unfold runSub
+  exact loop_of_names (emitSub params) rfl validate fin items _
+
+/-- non-vacuity of the renaming: with a parameter called `data`, a body that forgot the renaming
+    in the last position validates the caller's argument instead (what `misapplied` records) -/
+example (gd : Unit → Outcome) (validate : J → Option Nat) (d : J) (h : gd () = .data d) :
+    run ⟨"query", "variables", "response", "response", "_data", "data"⟩ gd validate (initEnv ["data"]) () =
+      .misapplied "model_validate" := by
+  simp [run, MethodTail.lookup, assign, initEnv, ClientMethod.selfName, h]
+
+example : emit ["query", "data"] = ⟨"_query", "variables", "response", "response", "_data", "_data"⟩ := by decide
+example : emit [] = ⟨"query", "variables", "response", "response", "data", "data"⟩ := by decide
+
+/-! ### Non-vacuity and concrete byte bodies (tests, not theorems) -/
+
+def cfg0 : PyJson.Cfg := ⟨1000, 4300⟩
+
+/-- `{"errors": [{"message": "x"}], "data": null}` as bytes -/
+def exBytes : List Nat :=
+  [123, 34, 101, 114, 114, 111, 114, 115, 34, 58, 32, 91, 123, 34, 109, 101, 115, 115, 97, 103, 101, 34, 58, 32, 34, 120, 34,
+   125, 93, 44, 32, 34, 100, 97, 116, 97, 34, 58, 32, 110, 117, 108, 108, 125]
+
+example : respOf cfg0 ⟨200, exBytes⟩ =
+    ⟨200, some (.obj [("errors", .arr [.obj [("message", .str "x")]]), ("data", .null)])⟩ := by rfl
+
+example : Supported_12 cfg0 ⟨200, exBytes⟩ := by unfold Supported_12; decide
+
+example : SpecShaped (respOf cfg0 ⟨200, exBytes⟩) := by
+  intro kvs e hb he
+  have hr : respOf cfg0 ⟨200, exBytes⟩ =
+      ⟨200, some (.obj [("errors", .arr [.obj [("message", .str "x")]]), ("data", .null)])⟩ := by rfl
+  rw [hr] at hb
+  simp only [Option.some.injEq, J.obj.injEq] at hb
+  subst hb
+  simp [J.lookup] at he
+  subst he
+  exact ⟨[.obj [("message", .str "x")]], rfl, by simp [ErrShaped, J.lookup]⟩
+
+example : getDataRaw cfg0 ⟨200, exBytes⟩ = .multi [errOf [("message", .str "x")] (.str "x")] .null := by rfl
+example : getDataRaw cfg0 ⟨404, exBytes⟩ = .http 404 := by rfl
+
+/-- the decoding glue on concrete bodies: which are "not JSON" -/
+example : getDataRaw cfg0 ⟨200, []⟩ = .invalid := by rfl                                     -- empty body
+example : getDataRaw cfg0 ⟨200, [255, 254, 123]⟩ = .invalid := by rfl                        -- truncated UTF-16
+example : getDataRaw cfg0 ⟨200, [34, 233, 34]⟩ = .invalid := by rfl                          -- latin-1 `"é"`
+example : PyJson.loads cfg0 [78, 97, 78] = .value (PyJson.nonFinite "nan") := by rfl        -- `NaN` IS JSON here
+example : PyJson.loads cfg0 [110, 97, 110] = .valueError := by rfl                          -- `nan` is not
+example : PyJson.loads cfg0 [45, 73, 110, 102, 105, 110, 105, 116, 121] = .value (PyJson.nonFinite "-inf") := by rfl
+example : PyJson.loads cfg0 [49, 101, 57, 57, 57] = .value (PyJson.nonFinite "inf") := by rfl   -- `1e999`
+-- `{"a":1,"a":2}`: the last value wins
+example : PyJson.loads cfg0 [123, 34, 97, 34, 58, 49, 44, 34, 97, 34, 58, 50, 125] = .value (.obj [("a", .num 2 0)]) := by rfl
+-- an integer literal one digit over the limit is "not JSON"; nesting one level over the limit escapes
+example : getDataRaw cfg0 ⟨200, List.replicate 4301 49⟩ = .invalid :=
+  long_int_body_is_invalid cfg0 200 4301 (by omega) (by decide) (by decide)
+example : getDataRaw cfg0 ⟨201, List.replicate 1001 91⟩ = .internal "RecursionError" :=
+  deep_body_escapes cfg0 201 (by omega)
+
+/-- non-shaped but falsy: `{"errors": null}` returns `None` -/
+example : getData ⟨200, some (.obj [("errors", .null)])⟩ = .data .null :=
+  falsy_errors_return_data ⟨200, some (.obj [("errors", .null)])⟩ [("errors", .null)] .null (by decide) rfl rfl rfl
+
+/-- `str()` of a multi-error: joined messages, or `TypeError` when a message is not a string -/
+example : (Exc.multi (R := Unit) [⟨.str "a", .null, .null, .null, .null⟩, ⟨.str "b", .null, .null, .null, .null⟩] .null).str = .ok "a; b" := by rfl
+example : (Exc.multi (R := Unit) [] .null).str = .ok "" := by rfl
+example : (Exc.multi (R := Unit) [⟨.str "a", .null, .null, .null, .null⟩, ⟨.null, .null, .null, .null, .null⟩] .null).str = .error "TypeError" := by rfl
+example : (Exc.http 404 ()).str = .ok "HTTP status code: 404" := by rfl
 
 /-! ### Non-vacuity: concrete spec-shaped responses hitting each outcome -/
 
